@@ -32,6 +32,9 @@ theorem core (remaining m : Int) (h0 : 0 ≤ remaining) (h1 : remaining < 461168
   omega
 
 
+/-- the assumed number of moves to the end of the game, as it is in the source now, is a legitimate divisor -/
+theorem horizon_ok : 2 ≤ Gen.defaultHorizon ∧ Gen.defaultHorizon < 4611686018427387904 := by decide
+
 /-- **For a clock that has not run out (`0 ≤ remaining < 2^62` ns ≈ 146 years) and EVERY `int64` number of moves to go**
     (negative, zero, `2^63 - 1`, … - the uci parser accepts any integer): `0 ≤ soft ≤ hard ≤ remaining`, and no operation
     of `Limits` can panic (the model has no error value to return: its divisors are never zero, see `limits`). -/
@@ -60,7 +63,7 @@ theorem hard_le_remaining (remaining moves : Int) (h0 : 0 ≤ remaining) (h1 : r
       rw [w1]
       exact core remaining (moves + 1) h0 h1 (by omega)
   · simp only [hm, if_false]
-    exact core remaining 40 h0 h1 (by omega)
+    exact core remaining Gen.defaultHorizon h0 h1 horizon_ok.1
 
 /-- the formula before the repair (`remainder / (2 * moves)`) divides by zero for `movestogo = 2^63 - 1` -/
 theorem old_divisor_zero : wrap64 (2 * wrap64 (9223372036854775807 + 1)) = 0 := by decide
@@ -68,10 +71,12 @@ theorem old_divisor_zero : wrap64 (2 * wrap64 (9223372036854775807 + 1)) = 0 := 
 
 /-- The divisors of `limits`: never `0`, never `-1` (so no `int64` division can panic or overflow). -/
 theorem divisor_ok (moves : Int) (m0 : -9223372036854775808 ≤ moves) (m1 : moves < 9223372036854775808) :
-    let m : Int := if moves > 0 then wrap64 (moves + 1) else 40
+    let m : Int := if moves > 0 then wrap64 (moves + 1) else Gen.defaultHorizon
     m ≠ 0 ∧ m ≠ -1 := by
   intro m
-  show (if moves > 0 then wrap64 (moves + 1) else 40) ≠ 0 ∧ (if moves > 0 then wrap64 (moves + 1) else 40) ≠ -1
+  show (if moves > 0 then wrap64 (moves + 1) else Gen.defaultHorizon) ≠ 0 ∧
+    (if moves > 0 then wrap64 (moves + 1) else Gen.defaultHorizon) ≠ -1
+  have hh := horizon_ok.1
   by_cases hm : moves > 0
   · simp only [hm, if_true]; unfold wrap64; omega
   · simp only [hm, if_false]; omega
@@ -79,7 +84,7 @@ theorem divisor_ok (moves : Int) (m0 : -9223372036854775808 ≤ moves) (m1 : mov
 /-- The one-move-to-go case a divisor without the `+ 1` would get wrong: half the clock soft, … -/
 theorem one_move_to_go : limits 1000000000 1 = (250000000, 750000000) := by decide
 
-example : (limits 60000000000 0).2 ≤ 60000000000 := by decide
+example : (limits 60000000000 0).2 ≤ 60000000000 := (hard_le_remaining 60000000000 0 (by decide) (by decide) (by decide) (by decide)).2.2
 
 /-- `go wtime 1000 btime 1000 movestogo 9223372036854775807` (the input that crashed the engine before 552dec5). -/
 example : limits 1000000000 9223372036854775807 = (0, 0) := by decide
